@@ -104,6 +104,9 @@ def selftest_on_scratch(prop, mod):
     except Exception as e:           # fixtures are optional
         return {"error": str(e)}
     mine = [v for v in variants.VARIANTS if v["prop"] == prop]
+    flt = os.environ.get("VERIF_SELFTEST_FILTER")
+    if flt:
+        mine = [v for v in mine if flt in v["name"]]
     if not mine:
         return {"variants": 0}
     scratch = tempfile.mkdtemp(prefix="ipa-verif-scratch-")
